@@ -1,3 +1,8 @@
 import LospanVerif.Basic
+import LospanVerif.Props.C11
+import LospanVerif.Props.C12
+import LospanVerif.Props.C13
 import LospanVerif.Props.C14
 import LospanVerif.Tie.Cmac
+import LospanVerif.Tie.Protocol
+import LospanVerif.Spec.Lorawan
